@@ -185,10 +185,10 @@ func zzH_C06_batch() {
 	var bk, bv [][]byte
 	for j := 0; j < 4; j++ {
 		var k []byte
-		if zzBound("FREE") != 0 || j == 3 {
-			k = zzKey(kl) // any key
+		if j >= 3 || j < zzBound("FREE")-1 {
+			k = zzKey(kl) // any key (the last entry always; FREE-1 of the first three)
 		} else {
-			k = keys[j] // directed: touch each base key
+			k = keys[j] // directed: touch a base key
 		}
 		var v []byte
 		if zzNondetBool() {
